@@ -16,7 +16,7 @@ def shardSpec (name : Str) (n : Nat) : Nat := (fnv32a name).toNat % n
 def leaderEv (me : Str) (f : Int → Option Str) (e : Op) : Int → Option Str :=
   match e with
   | .gain s => fun x => if x = s then some me else f x
-  | .lose s => fun x => if x = s then (if (f s).getD [] == me then none else f s) else f x
+  | .lose s | .loseBegin s => fun x => if x = s then (if (f s).getD [] == me then none else f s) else f x
   | .newLeader s id => fun x => if x = s then some id else f x
   | _ => f
 
@@ -43,7 +43,9 @@ def obsOf {ρ : Type} : Reply ρ → Obs
       naming that shard and its leader (the empty name if none is known), nothing changed;
     * cluster update for upstream u while not leader: nil is returned, nothing changed; condition deletion
       (which answers nothing) while not leader: nothing changed;
-    * after losing shard s: no store for s;
+    * after losing shard s (`lose`, or `loseEnd` = the stop callback has completed): no store for s; while the stop
+      callback runs (between `loseBegin s` and `loseEnd s`) leadership is ALREADY lost as far as `leaderAfter` is
+      concerned: the entry points must refuse and a leader check must not keep or create a store for s;
     * after a leader check: every remaining store is for a shard led by `me`. -/
 def JudgeStep (me : Str) (sh : Str → Int) (pre : List Op) (e : Op) (obs : Obs) (unchanged : Prop)
     (storesAfter : List Int) : Prop :=
@@ -55,7 +57,7 @@ def JudgeStep (me : Str) (sh : Str → Int) (pre : List Op) (e : Op) (obs : Obs)
     leaderAfter me pre (sh u) ≠ some me → obs = .silent ∧ unchanged
   | .deleteCond _ u _ _ =>
     leaderAfter me pre (sh u) ≠ some me → unchanged
-  | .lose s => s ∉ storesAfter
+  | .lose s | .loseEnd s => s ∉ storesAfter
   | .leaderCheck => ∀ s ∈ storesAfter, leaderAfter me pre s = some me
   | _ => True
 
@@ -87,7 +89,7 @@ def inShard (shard n : Int) (u : Str) : Bool :=
 def heldStep (me : Str) (pre : List Op) (held : Int → Bool) (e : Op) : Int → Bool :=
   match e with
   | .gain s => fun x => if x = s then true else held x
-  | .lose s => fun x => if x = s then false else held x
+  | .lose s | .loseEnd s => fun x => if x = s then false else held x
   | .leaderCheck => fun x => decide (leaderAfter me pre x = some me)
   | _ => held
 
